@@ -146,6 +146,62 @@ def _cls(desc):
 
 
 # ----------------------------------------------------------------------------- C07
+def _result_digest(call):
+    import hashlib
+    if call.exc is not None:
+        return "exc:" + str(call.exc_type)
+    # what the statement names: every position, cost, fitness and rate of every generation (floats by their hex
+    # representation; algorithm-specific extra fields may hold arbitrary objects and are left out)
+    def f(v):
+        if isinstance(v, float):
+            return v.hex()
+        if isinstance(v, (list, tuple)):
+            return [f(e) for e in v]
+        try:
+            return float(v).hex() if not isinstance(v, (int, str, bool, type(None))) else v
+        except Exception:
+            return repr(type(v))
+    core = {"evolution": [[[f(a.get("position")), f(a.get("cost")), f(a.get("fitness"))] for a in g]
+                          for g in call.dump["evolution"]],
+            "rates": f(call.dump["rates"]),
+            "best": [f(call.dump["best"].get("position")), f(call.dump["best"].get("cost")),
+                     f(call.dump["best"].get("fitness"))] if call.dump.get("best") else None}
+    return hashlib.sha256(json.dumps(core, sort_keys=True).encode()).hexdigest()[:24]
+
+
+def cross_process_sample(jobs, results, k_labelled=150, k_other=40):
+    """Jobs whose run A is repeated in a fresh interpreter under another PYTHONHASHSEED ("in different processes")."""
+    lab, other = [], []
+    for j, r in zip(jobs, results):
+        if not r or "harness_error" in r or "harness_timeout" in r or r.get("uninformative"):
+            continue
+        (lab if r.get("has_labels") else other).append(j["i"])
+    return lab[:k_labelled] + other[:k_other]
+
+
+def cross_process_replay(desc):
+    """Replay of a [*, diverged, across_processes] violation: run A in two fresh interpreters with different hash salts."""
+    import os, subprocess, sys, tempfile
+    here = os.path.dirname(os.path.abspath(__file__))
+    d = {k: v for k, v in desc.items() if k != "cross_process"}
+    with tempfile.NamedTemporaryFile("w", suffix=".json", delete=False) as f:
+        json.dump(d, f)
+        path = f.name
+    digs = []
+    try:
+        for hs in ("0", "4242"):
+            p = subprocess.run([sys.executable, os.path.join(here, "main.py"), "C07", "--result-digest-of", path],
+                               env=dict(os.environ, PYTHONHASHSEED=hs), capture_output=True, text=True, timeout=600)
+            digs.append(p.stdout.strip().splitlines()[-1] if p.returncode == 0 and p.stdout.strip() else f"error:{p.stderr[-200:]}")
+    finally:
+        os.unlink(path)
+    if digs[0] != digs[1]:
+        return [{"cls": [desc["optimizer"], "diverged", "across_processes"],
+                 "msg": f"run with seed={desc['task'].get('seed')} gives result digest {digs[0]} under PYTHONHASHSEED=0 and "
+                        f"{digs[1]} under PYTHONHASHSEED=4242 (task family {desc['task'].get('family')})"}]
+    return []
+
+
 def run_c07(desc, stats):
     out = []
     opt = desc["optimizer"]
@@ -176,6 +232,7 @@ def run_c07(desc, stats):
         task_b = tasks.build_task(desc["task"])
         b = s.call(_cls(desc)(_cfg(desc)), task_b, entropy_label="B")
         stats["steps"] = a.steps
+        stats["result_digest"] = _result_digest(a)
         stats["py_draws"] = a.py_draws
         stats["digest"] = s.sim.digest()
         stats["counters"] = dict(s.sim.counters)
@@ -562,7 +619,8 @@ def run_job(job):
         "fired": stats.get("fired") or {k[12:]: v for k, v in (stats.get("counters") or {}).items()
                                         if k.startswith("fault_fired:")},
         "uninformative": bool(stats.get("uninformative")), "wall": time.time() - t0,
-        "opkey": _opkey(job["pid"], desc),
+        "opkey": _opkey(job["pid"], desc), "result_digest": stats.get("result_digest"),
+        "has_labels": any(v.get("labels") for v in desc.get("task", {}).get("vars", [])),
     }
 
 
@@ -585,6 +643,8 @@ def _opkey(pid, desc):
 
 
 def replay(pid, desc):
+    if pid == "C07" and desc.get("cross_process"):
+        return cross_process_replay(desc)
     vs, _ = execute(pid, desc)
     return vs
 
